@@ -310,6 +310,9 @@ enum Owner {
 
 static CASE_NO: AtomicU64 = AtomicU64::new(0);
 
+/// open finding, see the classification at the end of run_case_inner
+pub const KNOWN_ABANDONED_STUCK: &str = "C15/abandoned-instance-stays-listed-unhealthy-after-responsibility-moved";
+
 fn discard(m: String) -> CaseReport {
     CaseReport {
         labels: vec!["discarded".into()],
@@ -425,6 +428,9 @@ fn run_case_inner(case: &Case, c: &mut Cluster) -> CaseReport {
             }
         })
     };
+    // (svc, addr) -> op index of the HttpAbandon; op index of the first kill
+    let mut abandoned: BTreeMap<(usize, u8), usize> = BTreeMap::new();
+    let mut first_kill: Option<usize> = None;
     let mut two_nodes_same_addr = false;
     let mut writers: BTreeMap<(usize, u8), BTreeSet<usize>> = BTreeMap::new();
     let mut killed_with_grpc = false;
@@ -498,6 +504,7 @@ fn run_case_inner(case: &Case, c: &mut Cluster) -> CaseReport {
                     hb_set.lock().unwrap().remove(&(s, *addr));
                     model.remove(&(s, *addr));
                     labels.insert("http_client_abandoned_its_instance".into());
+                    abandoned.insert((s, *addr), opi);
                 }
             }
             Op::Flap { svc, addr, node, weight, end_registered } => {
@@ -634,6 +641,9 @@ fn run_case_inner(case: &Case, c: &mut Cluster) -> CaseReport {
                     c.kill(nd);
                     down = Some(nd);
                     labels.insert("node_killed".into());
+                    if first_kill.is_none() {
+                        first_kill = Some(opi);
+                    }
                 }
             }
             Op::KillRestartQuick { node } => {
@@ -750,6 +760,65 @@ fn run_case_inner(case: &Case, c: &mut Cluster) -> CaseReport {
             std::thread::sleep(Duration::from_millis(1500));
         }
     }
+    // (judged while heartbeats and connections are still up)
+    let mut known_hit = false;
+    {
+        // open finding (DESIGN 8.9): an instance whose HTTP client went away, and which the node responsible for it marks
+        // unhealthy at about the time the responsibility for its service moves to another live node (a third node was
+        // killed), stays listed as unhealthy on every survivor for ever. Recognised narrowly: all live nodes agree with
+        // each other, nothing is missing, and everything unexpected is such an abandoned instance, reported unhealthy,
+        // whose abandon preceded a kill in this schedule. Anything else is reported.
+        if !converged && err.is_none() && is_open("C15", KNOWN_ABANDONED_STUCK) && std::env::var("RNV_C15_STRICT").is_err() {
+            let live: Vec<usize> = (0..3).filter(|i| Some(*i) != down).collect();
+            let mut only_known_shape = first_kill.is_some();
+            let mut hits = 0;
+            'svc: for s in 0..3 {
+                let want: BTreeSet<(String, u32)> = model.iter().filter(|((sv, _), _)| *sv == s).map(|((_, a), _)| addr_of(*a)).collect();
+                let mut first: Option<BTreeSet<(String, u32, bool, bool, String)>> = None;
+                for nd in &live {
+                    match list(c, *nd, SVCS[s]) {
+                        Ok(got) => {
+                            if let Some(g0) = &first {
+                                if *g0 != got {
+                                    only_known_shape = false;
+                                    break 'svc;
+                                }
+                            } else {
+                                first = Some(got.clone());
+                            }
+                            let got_addrs: BTreeSet<(String, u32)> = got.iter().map(|x| (x.0.clone(), x.1)).collect();
+                            if want.difference(&got_addrs).next().is_some() {
+                                only_known_shape = false;
+                                break 'svc;
+                            }
+                            for x in got.iter().filter(|x| !want.contains(&(x.0.clone(), x.1))) {
+                                let key = abandoned.iter().find(|((sv, a), _)| *sv == s && addr_of(*a) == (x.0.clone(), x.1));
+                                match key {
+                                    Some((_, at)) if !x.2 && first_kill.map(|k| *at < k).unwrap_or(false) => hits += 1,
+                                    _ => {
+                                        only_known_shape = false;
+                                        break 'svc;
+                                    }
+                                }
+                            }
+                            // the expected instances must be healthy
+                            if got.iter().any(|x| want.contains(&(x.0.clone(), x.1)) && !x.2) {
+                                only_known_shape = false;
+                                break 'svc;
+                            }
+                        }
+                        Err(_) => {
+                            only_known_shape = false;
+                            break 'svc;
+                        }
+                    }
+                }
+            }
+            if only_known_shape && hits > 0 {
+                known_hit = true;
+            }
+        }
+    }
     hb_stop.store(true, Ordering::SeqCst);
     let _ = hb.join();
     for k in 0..3 {
@@ -775,6 +844,10 @@ fn run_case_inner(case: &Case, c: &mut Cluster) -> CaseReport {
             }
         }
         last_diff = format!("{}; all views: {:?}", last_diff, views);
+        if known_hit {
+            labels.insert("known_abandoned_instance_stays_listed_unhealthy_after_responsibility_moved".into());
+            return CaseReport { labels: labels.into_iter().collect(), nontrivial: true, verdict: Verdict::Known(KNOWN_ABANDONED_STUCK.into()) };
+        }
         return CaseReport::violation(
             labels.into_iter().collect(),
             true,
